@@ -240,7 +240,7 @@ pub fn do_op<K: KeyT, V: ValT>(m: &mut Map<K, V>, w: &[&str], chk: &mut Vec<Stri
     let n = |i: usize| parse_u64(w[i]);
     match w[0] {
         "withcap" => {
-            *m = HashMap::with_capacity_and_hasher_in(n(1) as usize, PlanBuild::default(), Ledger);
+            *m = HashMap::with_capacity_and_hasher_in(n(1) as usize, PlanBuild::default(), Ledger::fresh());
             Out::Unit
         }
         "insert" => match m.insert(K::mk(n(1), n(2)), V::mk(n(3))) {
@@ -803,7 +803,7 @@ pub fn do_op<K: KeyT, V: ValT>(m: &mut Map<K, V>, w: &[&str], chk: &mut Vec<Stri
         }
         "into_par_iter" => {
             let pool = rayon::ThreadPoolBuilder::new().num_threads(n(1) as usize).build().unwrap();
-            let old = std::mem::replace(m, HashMap::with_hasher_in(PlanBuild::default(), Ledger));
+            let old = std::mem::replace(m, HashMap::with_hasher_in(PlanBuild::default(), Ledger::fresh()));
             let got: Vec<(K, V)> = pool.install(|| old.into_par_iter().collect());
             let mut l: Vec<(u64, u64, u64)> = got.iter().map(|(k, v)| kvt(k, v)).collect();
             l.sort();
@@ -934,7 +934,7 @@ pub fn do_op<K: KeyT, V: ValT>(m: &mut Map<K, V>, w: &[&str], chk: &mut Vec<Stri
             type S<K> = hashbrown::HashSet<K, PlanBuild, Ledger>;
             let fails = err_at.map_or(false, |p| p <= ids.len());
             let r: Result<S<K>, crate::serdedrv::Err> = if w[1] == "inplace" {
-                let mut place: S<K> = hashbrown::HashSet::with_hasher_in(PlanBuild::default(), Ledger);
+                let mut place: S<K> = hashbrown::HashSet::with_hasher_in(PlanBuild::default(), Ledger::fresh());
                 place.insert(K::mk(1_000_000, 1));
                 place.insert(K::mk(1_000_001, 1));
                 match Deserialize::deserialize_in_place(de, &mut place) {
@@ -1025,7 +1025,7 @@ pub fn do_op<K: KeyT, V: ValT>(m: &mut Map<K, V>, w: &[&str], chk: &mut Vec<Stri
             let total = m.len();
             let hb = m.hasher().clone();
             let snap: Vec<(u64, u64, u64)> = m.iter().map(|(k, v)| kvt(k, v)).collect();
-            let old = std::mem::replace(m, HashMap::with_hasher_in(hb, Ledger));
+            let old = std::mem::replace(m, HashMap::with_hasher_in(hb, Ledger::fresh()));
             let mut got = Vec::new();
             match w[0] {
                 "intoiter" => {
@@ -1166,7 +1166,7 @@ pub fn do_op<K: KeyT, V: ValT>(m: &mut Map<K, V>, w: &[&str], chk: &mut Vec<Stri
                     })
                 }))
             } else {
-                let old = std::mem::replace(m, HashMap::with_hasher_in(hb, Ledger));
+                let old = std::mem::replace(m, HashMap::with_hasher_in(hb, Ledger::fresh()));
                 match w[0] {
                     "intoiterfold" => {
                         let mut it = old.into_iter();
@@ -1290,7 +1290,7 @@ pub fn do_op<K: KeyT, V: ValT>(m: &mut Map<K, V>, w: &[&str], chk: &mut Vec<Stri
             }
             std::mem::forget(it);
             let hb = m.hasher().clone();
-            let ii = std::mem::replace(m, HashMap::with_hasher_in(hb, Ledger)).into_iter();
+            let ii = std::mem::replace(m, HashMap::with_hasher_in(hb, Ledger::fresh())).into_iter();
             // an owning iterator leaked part-way: its elements and block are leaked, nothing else happens
             let mut ii = ii;
             let mut got = Vec::new();
@@ -1337,7 +1337,7 @@ pub fn do_op<K: KeyT, V: ValT>(m: &mut Map<K, V>, w: &[&str], chk: &mut Vec<Stri
         "capacity" => Out::Num(m.capacity() as u128),
         "allocsize" => Out::Num(m.allocation_size() as u128),
         "dropmap" => {
-            let old = std::mem::replace(m, HashMap::with_hasher_in(PlanBuild::default(), Ledger));
+            let old = std::mem::replace(m, HashMap::with_hasher_in(PlanBuild::default(), Ledger::fresh()));
             drop(old);
             Out::Unit
         }
@@ -1369,7 +1369,7 @@ fn do_clone_op<K: KeyT, V: ValT>(m: &mut Map<K, V>, other: &mut Map<K, V>, w: &[
             format!("bool {}", r as u8)
         }
         "o_salt" => {
-            let old = std::mem::replace(other, HashMap::with_hasher_in(PlanBuild { salt: parse_u64(w[1]) }, Ledger));
+            let old = std::mem::replace(other, HashMap::with_hasher_in(PlanBuild { salt: parse_u64(w[1]) }, Ledger::fresh()));
             drop(old);
             "unit".into()
         }
@@ -1378,8 +1378,8 @@ fn do_clone_op<K: KeyT, V: ValT>(m: &mut Map<K, V>, other: &mut Map<K, V>, w: &[
 }
 
 pub fn run_map<K: KeyT, V: ValT>(lines: &[String], out: &mut String) {
-    let mut m: Map<K, V> = HashMap::with_hasher_in(PlanBuild::default(), Ledger);
-    let mut other: Map<K, V> = HashMap::with_hasher_in(PlanBuild::default(), Ledger);
+    let mut m: Map<K, V> = HashMap::with_hasher_in(PlanBuild::default(), Ledger::fresh());
+    let mut other: Map<K, V> = HashMap::with_hasher_in(PlanBuild::default(), Ledger::fresh());
     let (tsize, calign) = Map::<K, V>::verif_table_layout();
     let _ = writeln!(
         out,
